@@ -427,7 +427,8 @@ func init() {
 		check(m, "direct")
 		if p, err := m.Pack(); err == nil {
 			g := iso8583.NewMessage(ms)
-			if g.Unpack(p) == nil {
+			// the wire leg applies where the message itself survives the wire (C01's domain: e.g. no value that starts with its pad character)
+			if g.Unpack(p) == nil && msgObserve(g) == msgObserve(m) {
 				check(g, "via Pack/Unpack")
 			}
 		}
@@ -489,14 +490,31 @@ func allDocumented(fieldSpecs *Sx, st *Sx) bool {
 func cmpStruct(st *Sx, in, out reflect.Value, m *iso8583.Message, fs *[]Finding, how string) {
 	for i, d := range st.List[1].List {
 		a, b := in.Field(i), out.Field(i)
-		if a.IsZero() {
-			continue
-		}
-		if canon(d.List[3], a) != canon(d.List[3], b) {
+		if !sameNonZero(d.List[3], a, b) {
 			*fs = append(*fs, Finding{"c11-roundtrip", fmt.Sprintf("struct field %s (%s) came back as %s, was %s", string(d.List[2].Hex()), how, clip(canon(d.List[3], b)), clip(canon(d.List[3], a)))})
 			return
 		}
 	}
+}
+
+// every non-zero field of a (at any depth) is equal in b up to canonical form; zero-valued fields of a are not compared
+func sameNonZero(t *Sx, a, b reflect.Value) bool {
+	if a.IsZero() {
+		return true
+	}
+	if t.IsL && t.Head() == "ptr" && t.List[1].IsL && t.List[1].Head() == "struct" {
+		if b.IsNil() {
+			return false
+		}
+		st := t.List[1]
+		for i, d := range st.List[1].List {
+			if !sameNonZero(d.List[3], a.Elem().Field(i), b.Elem().Field(i)) {
+				return false
+			}
+		}
+		return true
+	}
+	return canon(t, a) == canon(t, b)
 }
 
 // canonical form of a Go value for comparison: pointers dereferenced, hex text case-folded, numerics as integers,
